@@ -34,5 +34,8 @@ def register(PROPS, HARNESS_PKGS):
         "exhaustive": True,
         "assumptions": ["the property's 'whatever bytes' is covered structurally: classes are enumerated, bytes inside a class are seeded instances",
                         "run with the plain registry: the unified catalogue's stale sources are recorded separately (C09/C10 findings)"],
-        "parts": [cat, met],
+        # third part: error bodies and broken completions on every route (the Dispatch scenarios of C05, which
+        # include 130 KB error pages, non-envelope errors, garbage and resets): the operation must end with a result
+        # or an error and never hang
+        "parts": [cat, met] + ([dict(PROPS["C05"]["parts"][0], name="errors")] if "C05" in PROPS else []),
     }
